@@ -376,8 +376,8 @@ def mul(x, y, out=None, out_like=None, sizing='optimal', method='raw', **kwargs)
     """
     def _mul_raw(x, y, n_frac):
         precision_cast = (lambda m: np.array(m, dtype=object)) if n_frac >= _n_word_max else (lambda m: m)
-        # bits of the product of both operands (as signed)
-        x_val, y_val = _raw_operands(x, y, x.n_word + y.n_word + 1)
+        # bits of the product of both operands (as signed), scaled up to the fractional size of the result
+        x_val, y_val = _raw_operands(x, y, x.n_word + y.n_word + 1 + max(n_frac - x.n_frac - y.n_frac, 0))
         return x_val * y_val * precision_cast(2**(n_frac - x.n_frac - y.n_frac))
 
     if not isinstance(x, Fxp):
